@@ -137,11 +137,16 @@ class World:
         self.n = case['n']
         self.storage, self.db = make_db(case, tmpdir, tag)
         self.tids = [self.last_tid()]      # commit order; rank = index + 1
-        self.tm = transaction.TransactionManager()
+        # an explicit transaction manager: the application (here: the harness) begins a transaction at once
+        # after every transaction boundary, so the programs mean the same as with an implicit one
+        self.explicit = bool(case.get('explicit'))
+        self.tm = transaction.TransactionManager(explicit=self.explicit)
         self.conn = self.db.open(self.tm)
+        self._begin()
         self.tm2 = transaction.TransactionManager()
         self.c2 = self.db.open(self.tm2)
         self.objs = [self.conn.root()]
+        self.objs[0]._p_activate()      # (a natively multi-version storage starts with the root as a ghost)
         for i in range(1, self.n):
             if i % 3 == 1:
                 o = PMap()
@@ -157,6 +162,10 @@ class World:
         self.ident = {id(o): i for i, o in enumerate(self.objs)}
         self.sps = []
         self.commit_failed = False
+
+    def _begin(self):
+        if self.explicit:
+            self.tm.begin()
 
     def last_tid(self):
         if self.case['kind'] == 'mvcc':
@@ -396,8 +405,14 @@ class World:
                 r += ' storage-changed'
             v1 = self.vector()
             self.tm.abort()
+            self._begin()
+            if self.explicit:
+                # (an explicit manager refreshes the connection's view at begin(), not at the end of the failed
+                # transaction: both observations are taken after the new transaction began)
+                v1 = self.vector()
             return r + ' tmp=%d' % self.tmp_left(), v1
         self.after_boundary()
+        self._begin()
         tid = self.last_tid()
         if tid == before:
             return 'ok nothing tmp=%d' % self.tmp_left(), None
@@ -409,6 +424,7 @@ class World:
 
     def op_abort(self):
         self.tm.abort()
+        self._begin()
         self.after_boundary()
         return 'ok tmp=%d' % self.tmp_left()
 
@@ -455,6 +471,9 @@ class World:
             r = 'fail:' + errname(e)
             v1 = self.vector()
             self.tm.abort()
+            self._begin()
+            if self.explicit:
+                v1 = self.vector()
             return r + ' tmp=%d' % self.tmp_left(), v1
         return 'ok', None
 
@@ -466,6 +485,8 @@ class World:
 
     def op_sync(self):
         """Connection.sync(): begins a new transaction, i.e. aborts the current one"""
+        if self.explicit:
+            self.tm.abort()     # (sync() begins a transaction; an explicit manager refuses that inside one)
         self.conn.sync()
         self.after_boundary()
         return 'ok tmp=%d' % self.tmp_left()
@@ -482,12 +503,18 @@ class World:
 
     def op_close(self):
         self.conn.close()
+        if self.explicit:
+            self.tm.abort()     # (nothing was pending, or the close would have been refused)
+            self.tm.begin()
         return 'ok'
 
     def op_open(self):
         if self.conn.opened is not None:
             return 'err:open'
+        if self.explicit:
+            self.tm.abort()
         c = self.db.open(self.tm)
+        self._begin()
         if c is not self.conn:
             return 'err:other-connection'
         return 'ok'
@@ -1320,6 +1347,8 @@ def decorate(case, rng):
         case['loose'] = 1
     if rng.random() < 0.06 and case['kind'] in ('mapping', 'file', 'demofs', 'hexfs'):
         case['big'] = 1
+    if rng.random() < 0.15:
+        case['explicit'] = 1
     return case
 
 
@@ -1366,7 +1395,7 @@ def load_corpus(pid):
             if f.endswith('.json'):
                 with open(os.path.join(d, f)) as fh:
                     c = json.load(fh)
-                out.append({k: c[k] for k in ('kind', 'n', 'ops', 'selfact', 'family', 'as', 'two', 'db', 'loose', 'big') if k in c})
+                out.append({k: c[k] for k in ('kind', 'n', 'ops', 'selfact', 'family', 'as', 'two', 'db', 'loose', 'big', 'explicit') if k in c})
     return out
 
 
@@ -1404,7 +1433,7 @@ def run_check(pid, argv=None):
     if ck.replay_path:
         with open(ck.replay_path) as f:
             c = json.load(f)['case']
-        cases = [{k: c[k] for k in ('kind', 'n', 'ops', 'selfact', 'family', 'as', 'two', 'db', 'loose', 'big') if k in c}]
+        cases = [{k: c[k] for k in ('kind', 'n', 'ops', 'selfact', 'family', 'as', 'two', 'db', 'loose', 'big', 'explicit') if k in c}]
         ncases = 0
     kinds = KINDS
     for m in range(ncases):
